@@ -41,7 +41,8 @@ fn now() -> u64 {
 }
 
 // ---------------------------------------------------------------------------------------------
-// Tree requests:  T x<hex(s-expression)> [x<hex(device path)>]
+// Tree requests:  T x<hex(s-expression)> [x<hex(device path)> [x<hex(further device path)>...]]   (further paths: rendered in order on
+//                 the same compiled value, reported as hist1..hist4)
 //   (and X Y) (or X Y) (list X Y) (not X) (prec X)      operator nodes
 //   (s "find syntax")                                    the tree parse() returns for that text
 //   (global-depth) (global-threads N) (global-maxdepth N) (global-mindepth N) (positional) (defaultprint)
@@ -196,7 +197,7 @@ fn build(s: &Sx) -> Result<Exp, String> {
     })
 }
 
-fn compile_report(exp: &Exp, opts: &RunOptions, mdt: &str, kv: &mut Vec<(&'static str, String)>) {
+fn compile_report(exp: &Exp, opts: &RunOptions, mdt: &str, more: &[String], kv: &mut Vec<(&'static str, String)>) {
     let t0 = now();
     let compiled = catch_unwind(AssertUnwindSafe(|| compile(exp, opts)));
     let t1 = now();
@@ -221,6 +222,14 @@ fn compile_report(exp: &Exp, opts: &RunOptions, mdt: &str, kv: &mut Vec<(&'stati
                     kv.push(("again", (s == s2).to_string()));
                 }
                 Err(p) => kv.push(("panic", payload(p))),
+            }
+            // further device paths: rendered on the SAME compiled value, in order (render histories)
+            const HIST: [&str; 4] = ["hist1", "hist2", "hist3", "hist4"];
+            for (i, m) in more.iter().take(4).enumerate() {
+                match catch_unwind(AssertUnwindSafe(|| c.scheme(m.as_str()))) {
+                    Ok(s) => kv.push((HIST[i], s)),
+                    Err(p) => kv.push(("panic", payload(p))),
+                }
             }
             match c.io_map() {
                 None => kv.push(("iomap", "none".into())),
@@ -261,7 +270,8 @@ fn main() {
                         }
                         Err(p) => kv.push(("panic", payload(p))),
                     }
-                    compile_report(&exp, &RunOptions::default(), mdt.as_str(), &mut kv);
+                    let more: Vec<String> = it.map(unhex).collect();
+                    compile_report(&exp, &RunOptions::default(), mdt.as_str(), &more, &mut kv);
                 }
             }
             let reply: Vec<String> = kv.iter().map(|(k, v)| format!("{}={}", k, hex(v))).collect();
@@ -273,6 +283,7 @@ fn main() {
         }
         let input = unhex(first);
         let mdt = it.next().map(unhex).unwrap_or(String::from("/"));
+        let more: Vec<String> = it.map(unhex).collect();
         let parsed = catch_unwind(AssertUnwindSafe(|| parse(input.as_str())));
         match parsed {
             Err(p) => {
@@ -293,7 +304,7 @@ fn main() {
                 kv.push(("tree", format!("{:?}", exp)));
                 kv.push(("action", exp.action().to_string()));
                 kv.push(("complex", exp.complex_frames().to_string()));
-                compile_report(&exp, &opts, mdt.as_str(), &mut kv);
+                compile_report(&exp, &opts, mdt.as_str(), &more, &mut kv);
             }
         }
         let reply: Vec<String> = kv.iter().map(|(k, v)| format!("{}={}", k, hex(v))).collect();
